@@ -245,7 +245,7 @@ pub fn build(code: u32, need_reply: bool, var: &str, v: u64, rng: &mut Rng) -> B
                     off = 0x1000 - size + 1;
                 }
                 "wrap" => {
-                    off = u32::MAX - size + 2;
+                    off = (u32::MAX - size).wrapping_add(1 + (size > 1) as u32);
                 }
                 "flags_undef" => flags |= 1 << (2 + rng.below(30)),
                 "payload_short" => plen -= 1,
